@@ -35,4 +35,83 @@ def rootGuardGo (cap used : Nat → Nat) : Bool := decide (leftGo cap used 0 > 0
 def fitsSumGo (cap used : Nat → Nat) (ch : List Nat) (amt : Nat) : Bool :=
   ch.all (fun p => !decide (wrap64 ((used p : Int) + (amt : Int)) > (cap p : Int)))
 
+/-! ### the DECISIONS of `Use` and of one iteration of the tick's service loop, on machine ints
+
+A second transcription, independent of `fits` / `effCap` / `RL.micro`: the state is given as Go `int`s (`capI usedI : Nat →
+Int`, every value in `[-2^63, 2^63)`), the amount is the Go `int` the caller passed, and every intermediate the code
+computes is computed here — the running minimum of `effectiveCap()` (comparisons), `capacity - used` with wrap-around
+(`wrap64` is Go's int64 arithmetic: the mathematical result reduced to `[-2^63, 2^63)`), its running minimum
+`available`, the comparison with the amount, the charge `used += amount` with wrap-around — in the ORDER of limiter.go:170-209
+and 65-94.  The driver runs `useDecI` next to the model's own decision on every `use` line. -/
+
+/-- what `Use` / the service loop decides for one request -/
+inductive UseDec | refuseNeg | refuseClosed | grantZero | refuseCap | grant | queue
+deriving DecidableEq, Repr
+
+/-- `effectiveCap()` (limiter.go:146-154): comparisons only -/
+def effCapI (capI : Nat → Int) : List Nat → Int
+  | [] => 0
+  | l :: ps => ps.foldl (fun c p => if capI p < c then capI p else c) (capI l)
+
+/-- limiter.go:190-198 / 74-82: `available := l.capacity - l.used; for p … { pa := p.capacity - p.used; if pa < available … }` -/
+def availI (capI usedI : Nat → Int) : List Nat → Int
+  | [] => 0
+  | l :: ps => ps.foldl (fun av p => if wrap64 (capI p - usedI p) < av then wrap64 (capI p - usedI p) else av)
+                (wrap64 (capI l - usedI l))
+
+/-- `Use(amount)` (limiter.go:168-217), `ch` = the limiter followed by its ancestors -/
+def useDecI (capI usedI : Nat → Int) (closed : Nat → Bool) (ch : List Nat) (l : Nat) (amt : Int) : UseDec :=
+  if amt < 0 then .refuseNeg
+  else if closed l then .refuseClosed
+  else if amt = 0 then .grantZero
+  else if amt > effCapI capI ch then .refuseCap
+  else if availI capI usedI ch ≥ amt then .grant
+  else .queue
+
+/-- one iteration of the ticker's loop (limiter.go:65-94) for the request `(l, amt)` -/
+def tickDecI (capI usedI : Nat → Int) (closed : Nat → Bool) (ch : List Nat) (l : Nat) (amt : Int) : UseDec :=
+  if closed l then .refuseClosed
+  else if amt > effCapI capI ch then .refuseCap
+  else if wrap64 (capI 0 - usedI 0) > 0 ∧ availI capI usedI ch ≥ amt then .grant
+  else .queue
+
+/-- `l.used += amount` and the same for every ancestor (limiter.go:200-205 / 84-89) -/
+def chargeI (usedI : Nat → Int) (ch : List Nat) (amt : Int) : Nat → Int :=
+  fun x => if x ∈ ch then wrap64 (usedI x + amt) else usedI x
+
+/-- the variant that ADDS before it compares (`p.used+amount > p.capacity`, the shape of `seeded/ind6-c16-a`) -/
+def useDecSumI (capI usedI : Nat → Int) (closed : Nat → Bool) (ch : List Nat) (l : Nat) (amt : Int) : UseDec :=
+  if amt < 0 then .refuseNeg
+  else if closed l then .refuseClosed
+  else if amt = 0 then .grantZero
+  else if amt > effCapI capI ch then .refuseCap
+  else if ch.all (fun p => !decide (wrap64 (usedI p + amt) > capI p)) then .grant
+  else .queue
+
+/-! the MODEL's decisions, read off `RL.micro` / `RL.plan` and `RL.service` (theorems `useDecN_is_exec`,
+    `tickDecN_is_service` in `Lemmas/RateLimiterDec.lean` show that `RL.exec` and `RL.service` act on exactly these) -/
+
+def useDecN (s : S) (l : Nat) (amt : Int) : UseDec :=
+  if amt < 0 then .refuseNeg
+  else if s.closed l then .refuseClosed
+  else if amt.toNat = 0 then .grantZero
+  else if amt.toNat > effCap s.cap (s.chain l) (s.cap l) then .refuseCap
+  else if fits s.cap s.used (s.chain l) amt.toNat then .grant
+  else .queue
+
+def tickDecN (cap : Nat → Nat) (chain : Nat → List Nat) (closed : Nat → Bool) (used : Nat → Nat) (r : Req) : UseDec :=
+  if closed r.lim then .refuseClosed
+  else if r.amt > effCap cap (chain r.lim) (cap r.lim) then .refuseCap
+  else if used 0 < cap 0 ∧ fits cap used (chain r.lim) r.amt = true then .grant
+  else .queue
+
+/-- what `exec` does with a decision -/
+def applyUseDec (s : S) (l : Nat) (amt : Int) : UseDec → S
+  | .refuseNeg => answer s .errNeg
+  | .refuseClosed => answer s .errClosed
+  | .grantZero => doUseZero s l
+  | .refuseCap => answer s .errCap
+  | .grant => doUseGrant s l amt.toNat
+  | .queue => doUseWait s l amt.toNat
+
 end RL
